@@ -739,7 +739,7 @@ func (cs *c28Case) feed(s *c28Sess) {
 						break
 					}
 					waited = true
-					time.Sleep(20 * time.Microsecond)
+					time.Sleep(100 * time.Microsecond)
 				}
 				if waited {
 					s.pacedWaits++
@@ -939,7 +939,11 @@ func (cs *c28Case) control(feedersDone <-chan struct{}) {
 	}
 }
 
+var c28Phase [5]time.Duration // informational wall-clock phase split of the last case
+
 func c28RunCase(r *verifkit.Run, ci int, cfg *c28Cfg) (abort bool) {
+	tPhase := time.Now()
+	mark := func(i int) { c28Phase[i] = time.Since(tPhase); tPhase = time.Now() }
 	cs := &c28Case{r: r, ci: ci, cfg: cfg, clk: &c28Clock{}, triggerCh: make(chan struct{})}
 	seed := c28Mix(r.Seed ^ c28Mix(uint64(ci)))
 	cs.uc = &c28Usecase{clk: cs.clk, seed: seed, itemErrPct: cfg.itemErrPct, faultPermille: cfg.faultPermille,
@@ -995,6 +999,7 @@ func c28RunCase(r *verifkit.Run, ci int, cfg *c28Cfg) (abort bool) {
 	if cfg.trigger == 0 {
 		cs.fireTrigger()
 	}
+	mark(0)
 
 	var feeders, pushers sync.WaitGroup
 	for i, s := range cs.ss {
@@ -1014,6 +1019,7 @@ func c28RunCase(r *verifkit.Run, ci int, cfg *c28Cfg) (abort bool) {
 		pushers.Wait()
 		<-controlDone
 	})
+	mark(1)
 	if !joined {
 		r.Inconclusive(fmt.Sprintf("case %d (%s): feeders/pushers/control did not finish within watchdog", ci, cfg.desc()))
 		return true
@@ -1048,6 +1054,7 @@ func c28RunCase(r *verifkit.Run, ci int, cfg *c28Cfg) (abort bool) {
 		}
 	}
 
+	mark(2)
 	snapF := cs.snapshot()
 	finalWrites := make([][][]byte, len(cs.ss))
 	for i, s := range cs.ss {
@@ -1059,7 +1066,9 @@ func c28RunCase(r *verifkit.Run, ci int, cfg *c28Cfg) (abort bool) {
 			return true
 		}
 	}
+	mark(3)
 	cs.analyse(snapF, finalWrites)
+	mark(4)
 	return false
 }
 
@@ -1409,7 +1418,7 @@ func TestVerifC28(t *testing.T) {
 	r.Assume("A session counts as 'stayed open' only if its connection was never closed when checked at a quiescent point (feeders/pushers joined, DrainSends returned nil); every SEND delivered on such a session was accepted because a rejected SEND closes the session.")
 	r.Assume("The gateway's own AsyncSendAdmissionObserver 'ok' events are trusted as the count of admitted SENDs for the global drain-completeness check.")
 
-	n := r.N(60, 450)
+	n := r.N(60, 1000)
 	for i := 0; i < n; i++ {
 		if r.Skip(i) {
 			continue
@@ -1420,6 +1429,11 @@ func TestVerifC28(t *testing.T) {
 		if c28RunCase(r, i, cfg) {
 			return
 		}
-		r.Max("slowest_case_ms(wall, informational)", int(time.Since(started).Milliseconds()))
+		el := time.Since(started)
+		r.Max("slowest_case_ms(wall, informational)", int(el.Milliseconds()))
+		if el > 2*time.Second {
+			t.Logf("slow case %d: %s (setup %s, run %s, final-drain %s, snapshot+stop %s, analyse %s): %s", i, el.Round(time.Millisecond),
+				c28Phase[0].Round(time.Millisecond), c28Phase[1].Round(time.Millisecond), c28Phase[2].Round(time.Millisecond), c28Phase[3].Round(time.Millisecond), c28Phase[4].Round(time.Millisecond), cfg.desc())
+		}
 	}
 }
